@@ -356,7 +356,8 @@ func shiftMinimise(ctx context.Context, is shiftIssue, files map[string]string, 
 	}
 	sort.Strings(names)
 	for _, n := range names {
-		if n == is.File || n == is.Other {
+		// never below two files: a one-file workspace is linted without the aggregate phase, a different mode
+		if n == is.File || n == is.Other || len(cur) <= 2 {
 			continue
 		}
 		cand := map[string]string{}
